@@ -315,6 +315,10 @@ def r07_9(ctx):
 
 
 def run(ctx):
+    ctx.rule("R07.11", "the tokenizer takes attribute value characters verbatim (no folding of line breaks or other characters inside a value)")
+    from . import tokrules as _trv
+    for _w in ('html',):
+        ctx.guard("R07.11", "attr-verbatim/" + _w, lambda _w=_w: _trv.attr_values_kept_verbatim(ctx, "R07.11", _w))
     ctx.rule("R07.10", "the tokenizer's run scanner (SmallCharSet::nonmember_prefix_len) examines every byte: no '&', '<' or quote the serializer relies on can be skipped")
     from .C13 import prefix_scan_rule
     ctx.guard("R07.10", "scan", lambda: prefix_scan_rule(ctx, "R07.10"))
